@@ -2,13 +2,19 @@
 (***************************************************************************)
 (* desper.model.DirectoryResourcePopulator filling a ResourceMap (C16).    *)
 (*                                                                         *)
-(* A behaviour: Init picks a *scenario* (directory tree, constructor       *)
+(* A behaviour: Init picks a *scenario* (directory trees, constructor      *)
 (* options, one to three populate calls of the same populator, each with   *)
-(* the rules added before it, its per-call options and whether it fills    *)
-(* the same map or a new one); Call(c) is one `populator(resource_map,...)`*)
-(* computed the way __call__ does it.  The populator itself has no state   *)
-(* besides its rules: an option given to one call must not leak into the   *)
-(* next (CallNest / CallTrim read the scenario only).                      *)
+(* the rules added before it, its per-call options, the tree it reads -    *)
+(* `root` may be given per call: a base tree, then an overlay - and whether*)
+(* it fills the same map or a new one); Call(c) is one                     *)
+(* `populator(resource_map,...)` computed the way __call__ does it.  The   *)
+(* populator itself has no state besides its rules: an option given to one *)
+(* call must not leak into the next (CallNest / CallTrim read the scenario *)
+(* only).                                                                  *)
+(* A name may be a file in the tree of an earlier call and a directory in  *)
+(* the tree of a later one: the directory on the way to an accepted file   *)
+(* is a sub-map, whatever handles held its key (in whichever layer) are    *)
+(* overwritten by it (ResourceMap.__setitem__).                            *)
 (*                                                                         *)
 (* Operational layer (shaped like desper/model/__init__.py:136-183 over    *)
 (* the tables of desper/model/tree.py): `maps` = the sub-maps reachable    *)
@@ -30,8 +36,9 @@
 (* does, and is not compared.                                              *)
 (*                                                                         *)
 (* Deviation switches (TRUE = intended, FALSE = as implemented at 05622c8):*)
-(*   NotADirValueError  D18: a rule path that is a regular file raises     *)
-(*                      ValueError (the code raises NameError)             *)
+(*   NotADirValueError  D18: a rule path that exists and is not a directory *)
+(*                      (regular file, special file such as a FIFO) raises *)
+(*                      ValueError (the code raised NameError)             *)
 (*   NoNestDropsOlder   without nesting the new handle replaces the one    *)
 (*                      that held the key, whichever layer holds it (the   *)
 (*                      code writes layer 0 only: an older handle living   *)
@@ -62,9 +69,14 @@ SeqsOf(S) == IF S = {} THEN {<<>>} ELSE UNION {{<<x>> \o s : s \in SeqsOf(S \ {x
 (***************************************************************************)
 (* The file tree and the populator's configuration                         *)
 (***************************************************************************)
-Files == sc.files          \* regular files
-Dirs == sc.dirs            \* directories, empty ones included
-Kind(p) == IF p \in Files THEN "file" ELSE IF p \in Dirs THEN "dir" ELSE "none"
+Calls == 1..Len(sc.calls)
+TreeOf(c) == sc.trees[sc.calls[c].root]      \* the tree call c reads (its `root`)
+Files(c) == TreeOf(c).files                  \* regular files
+Dirs(c) == TreeOf(c).dirs                    \* directories, empty ones included
+Specials(c) == TreeOf(c).specials            \* exist, neither directory nor regular file (FIFOs)
+Kind(c, p) == IF p \in Files(c) THEN "file" ELSE IF p \in Dirs(c) THEN "dir"
+              ELSE IF p \in Specials(c) THEN "special" ELSE "none"
+AllFiles == UNION {sc.trees[t].files : t \in DOMAIN sc.trees}
 
 Ext(name) == IF Len(name) > 1 THEN Last(name) ELSE ""           \* os.path.splitext: from the last dot
 KeyName(name, trim) == IF trim /\ Len(name) > 1 THEN Front(name) ELSE name
@@ -79,11 +91,15 @@ Since(n) == LET F == {c \in sc.fresh : c <= n} IN
 RECURSIVE RulesAt(_)
 RulesAt(c) == IF c = 0 THEN <<>> ELSE RulesAt(c - 1) \o sc.calls[c].add    \* add_rule appends
 
-\* Outside the generated domain (DESIGN C16, Lenient): a name that is both a file and a directory,
-\* a trimmed file key that is also a directory of the same map.
-DomainOK == /\ Files \cap Dirs = {} /\ <<>> \notin Files \cup Dirs
-            /\ \A p \in Files \cup Dirs : Len(p) = 1 \/ Front(p) \in Dirs        \* it is a tree
-            /\ \A p \in Files : KeyPath(p, TRUE) \notin Dirs
+\* Outside the generated domain (DESIGN C16, Lenient): within one tree a trimmed file key that is also a
+\* directory; from an earlier call's tree to a later one's a directory that becomes a file key (the sub-map and
+\* what was reachable through it would go), and a file key that becomes a directory from which the later call
+\* takes no file (the statement does not say whether such a directory appears, hence not whether the handle goes).
+\* A file key that becomes a directory ON THE WAY TO AN ACCEPTED FILE is inside the domain.  ReqOf is defined below.
+TreeOK(t) == /\ t.files \cap t.dirs = {} /\ <<>> \notin t.files \cup t.dirs \cup t.specials
+             /\ t.specials \cap (t.files \cup t.dirs) = {}
+             /\ \A p \in t.files \cup t.dirs \cup t.specials : Len(p) = 1 \/ Front(p) \in t.dirs      \* it is a tree
+             /\ \A p \in t.files : KeyPath(p, TRUE) \notin t.dirs
 
 (***************************************************************************)
 (* Operational layer                                                       *)
@@ -94,11 +110,24 @@ Remove(f, key) == [x \in DOMAIN f \ {key} |-> f[x]]
 Visible(L, key) == LET I == {i \in 1..Len(L) : key \in DOMAIN L[i]} IN
                    IF I = {} THEN 0 ELSE CHOOSE i \in I : \A j \in I : i <= j
 
-\* ResourceMap.__setitem__ creates every missing map on the way; a fresh map has one empty layer
+\* ResourceMap.__setitem__ creates every missing map on the way; a fresh map has one empty layer; a handle
+\* that holds the key of a map on the way is overwritten by the map: removed from every layer
 WithMaps(st, ps) ==
-    LET all == st.maps \cup UNION {Prefixes(p) : p \in ps} IN
-    [st EXCEPT !.maps = all,
-               !.layers = [m \in all |-> IF m \in st.maps THEN st.layers[m] ELSE <<NoLayer>>]]
+    LET all == st.maps \cup UNION {Prefixes(p) : p \in ps}
+        Gone(m) == {Last(q) : q \in {x \in all : x # <<>> /\ Front(x) = m}}        \* keys of m that are maps now
+    IN [st EXCEPT !.maps = all,
+                  !.layers = [m \in all |-> IF m \in st.maps
+                                           THEN [j \in 1..Len(st.layers[m]) |->
+                                                    [x \in DOMAIN st.layers[m][j] \ Gone(m) |-> st.layers[m][j][x]]]
+                                           ELSE <<NoLayer>>]]
+\* lines 167-170: a directory met by glob becomes a map unless resource_map.get(its key) finds something; parents
+\* are met before what they contain
+HeldByHandle(st, p) == Front(p) \in st.maps /\ Visible(st.layers[Front(p)], Last(p)) # 0
+RECURSIVE SeeDirs(_, _)
+SeeDirs(st, ds) ==
+    IF ds = {} THEN st
+    ELSE LET p == CHOOSE x \in ds : \A y \in ds : Len(x) <= Len(y)
+         IN SeeDirs(IF HeldByHandle(st, p) THEN st ELSE WithMaps(st, {p}), ds \ {p})
 
 \* lines 171-183 for one regular file: instantiate, optional new scope level, resource_map[key] = handle
 SetHandle(st0, kp, h, rule, nest) ==
@@ -116,8 +145,8 @@ SetHandle(st0, kp, h, rule, nest) ==
 
 \* the extension filter as coded looks at every glob result, directories included
 Passes(rule, p) == rule.exts = {} \/ Ext(Last(p)) \in rule.exts
-SeenDirs(rule) == {p \in Dirs : Under(rule.dir, p) /\ Passes(rule, p)}
-SeenFiles(rule) == {p \in Files : Under(rule.dir, p) /\ Passes(rule, p)}
+SeenDirs(c, rule) == {p \in Dirs(c) : Under(rule.dir, p) /\ Passes(rule, p)}
+SeenFiles(c, rule) == {p \in Files(c) : Under(rule.dir, p) /\ Passes(rule, p)}
 
 RECURSIVE Orders(_, _)
 Orders(F, trim) ==
@@ -133,10 +162,11 @@ VisitFiles(st, ord, c, i, rule, nest, trim) ==
                     Tail(ord), c, i, rule, nest, trim)
 
 RuleOutcomes(st, c, i, rule, nest, trim) ==
-    CASE Kind(rule.dir) = "none" -> {st}                         \* silently skipped
-      [] Kind(rule.dir) = "file" -> {[st EXCEPT !.exc = IF NotADirValueError THEN "ValueError" ELSE "NameError"]}
-      [] OTHER -> {VisitFiles(WithMaps(st, SeenDirs(rule)), o, c, i, rule, nest, trim)
-                     : o \in Orders(SeenFiles(rule), trim)}
+    CASE Kind(c, rule.dir) = "none" -> {st}                      \* silently skipped
+      [] Kind(c, rule.dir) \in {"file", "special"} ->            \* exists, not a directory
+             {[st EXCEPT !.exc = IF NotADirValueError THEN "ValueError" ELSE "NameError"]}
+      [] OTHER -> {VisitFiles(SeeDirs(st, SeenDirs(c, rule)), o, c, i, rule, nest, trim)
+                     : o \in Orders(SeenFiles(c, rule), trim)}
 
 RECURSIVE Run(_, _, _)
 Run(st, c, i) ==
@@ -146,14 +176,20 @@ Run(st, c, i) ==
 (***************************************************************************)
 (* What the property states, from the scenario alone                       *)
 (***************************************************************************)
-FailAt(c) == LET I == {i \in 1..Len(RulesAt(c)) : Kind(RulesAt(c)[i].dir) = "file"} IN
+FailAt(c) == LET I == {i \in 1..Len(RulesAt(c)) : Kind(c, RulesAt(c)[i].dir) \in {"file", "special"}} IN
              IF I = {} THEN 0 ELSE CHOOSE i \in I : \A j \in I : i <= j
 \* rules of call c that populate: existing directories before the first rejected rule
-Done(c) == {i \in 1..Len(RulesAt(c)) : Kind(RulesAt(c)[i].dir) = "dir" /\ (FailAt(c) = 0 \/ i < FailAt(c))}
+Done(c) == {i \in 1..Len(RulesAt(c)) : Kind(c, RulesAt(c)[i].dir) = "dir" /\ (FailAt(c) = 0 \/ i < FailAt(c))}
 ExpectedExc(c) == IF c = 0 \/ FailAt(c) = 0 THEN "ok" ELSE "ValueError"
 \* "each regular file under a rule's directory whose extension the rule accepts"
-Accepted(rule) == {p \in Files : Len(p) > Len(rule.dir) /\ Under(rule.dir, p)
-                                 /\ (rule.exts = {} \/ Ext(Last(p)) \in rule.exts)}
+Accepted(c, rule) == {p \in Files(c) : Len(p) > Len(rule.dir) /\ Under(rule.dir, p)
+                                       /\ (rule.exts = {} \/ Ext(Last(p)) \in rule.exts)}
+\* "every directory on the way to such a file": the sub-maps call c must leave behind
+ReqOf(c) == UNION {UNION {Prefixes(Front(p)) : p \in Accepted(c, RulesAt(c)[i])} : i \in Done(c)}
+DomainOK == /\ \A t \in DOMAIN sc.trees : TreeOK(sc.trees[t])
+            /\ \A c1 \in Calls, c2 \in Calls : c1 < c2 =>
+                   /\ \A p \in Files(c2), t \in BOOLEAN : KeyPath(p, t) \notin Dirs(c1)
+                   /\ \A p \in Files(c1), t \in BOOLEAN : KeyPath(p, t) \in Dirs(c2) => KeyPath(p, t) \in ReqOf(c2)
 
 \* the handles that ever claimed key path K, oldest first, grouped by (call, rule): the order inside a
 \* group is the file system's
@@ -162,7 +198,7 @@ Gens(c, i, K) ==
     IF c < Since(k) THEN <<>>                                    \* earlier calls filled other maps
     ELSE IF i = 0 THEN Gens(c - 1, Len(RulesAt(c - 1)), K)
     ELSE LET g == IF i \in Done(c)
-                  THEN {Handle(c, i, p) : p \in {q \in Accepted(RulesAt(c)[i]) : KeyPath(q, CallTrim(c)) = K}}
+                  THEN {Handle(c, i, p) : p \in {q \in Accepted(c, RulesAt(c)[i]) : KeyPath(q, CallTrim(c)) = K}}
                   ELSE {}
          IN IF g = {} THEN Gens(c, i - 1, K) ELSE Append(Gens(c, i - 1, K), [hs |-> g, nest |-> CallNest(c)])
 \* "nest_on_conflict keeps the older handle retrievable beneath the new one and otherwise the new one
@@ -177,12 +213,12 @@ ExpCols(gs) ==
 \* sub-maps: every directory on the way to an accepted file must be one; directories under a populating
 \* rule's directory (and those leading to it) may be one - the statement does not say whether empty or
 \* filtered-out directories appear, so neither reading is demanded
-DoneRules(n) == UNION {{RulesAt(c)[i] : i \in Done(c)} : c \in Since(n)..n}
-Required(n) == {<<>>} \cup UNION {UNION {Prefixes(Front(p)) : p \in Accepted(rule)} : rule \in DoneRules(n)}
-Allowed(n) == {<<>>} \cup UNION {Prefixes(rule.dir) \cup {p \in Dirs : Under(rule.dir, p)} : rule \in DoneRules(n)}
+Required(n) == {<<>>} \cup UNION {ReqOf(c) : c \in Since(n)..n}
+Allowed(n) == {<<>>} \cup UNION {UNION {Prefixes(RulesAt(c)[i].dir) \cup {p \in Dirs(c) : Under(RulesAt(c)[i].dir, p)}
+                                          : i \in Done(c)} : c \in Since(n)..n}
 ExpectedMade(c) == IF c = 0 THEN {}
                    ELSE UNION {{[c |-> c, r |-> i, p |-> p, f |-> RulesAt(c)[i].fac, a |-> RulesAt(c)[i].args]
-                                  : p \in Accepted(RulesAt(c)[i])} : i \in Done(c)}
+                                  : p \in Accepted(c, RulesAt(c)[i])} : i \in Done(c)}
 
 (***************************************************************************)
 (* Behaviours                                                              *)
@@ -210,7 +246,7 @@ ColOf(L, key) == IF L = <<>> THEN <<>>
                  ELSE (IF key \in DOMAIN Head(L) THEN <<Head(L)[key]>> ELSE <<>>) \o ColOf(Tail(L), key)
 Column(K) == IF K # <<>> /\ Front(K) \in maps THEN ColOf(layers[Front(K)], Last(K)) ELSE <<>>
 PresentKeys == UNION {{m \o <<key>> : key \in UNION {DOMAIN layers[m][j] : j \in 1..Len(layers[m])}} : m \in maps}
-AllKeys == PresentKeys \cup {KeyPath(p, t) : p \in Files, t \in BOOLEAN}
+AllKeys == PresentKeys \cup {KeyPath(p, t) : p \in AllFiles, t \in BOOLEAN}
 IsSuffix(s, t) == Len(s) <= Len(t) /\ SubSeq(t, Len(t) - Len(s) + 1, Len(t)) = s
 
 TypeOK == /\ k \in 0..Len(sc.calls) /\ <<>> \in maps /\ DOMAIN layers = maps
@@ -219,16 +255,19 @@ TypeOK == /\ k \in 0..Len(sc.calls) /\ <<>> \in maps /\ DOMAIN layers = maps
 
 \* EveryAcceptedFileReachable, KeyIsRelPath(TrimmedIfAsked), NestKeepsOlderBeneath, NoNestReplaces and the
 \* handle half of NothingElseAdded in one statement per key (a key nobody may claim has the empty column)
-ColumnsAsStated == \A K \in AllKeys : Column(K) \in ExpCols(Gens(k, Len(RulesAt(k)), K))
+\* ... and a key that is by now a directory on the way to an accepted file holds no handle in any layer: the
+\* directory is a sub-map (DirsOnTheWayAreMaps), the handles of that name were overwritten by it
+ColumnsAsStated == \A K \in AllKeys : IF K \in Required(k) THEN Column(K) = <<>>
+                                      ELSE Column(K) \in ExpCols(Gens(k, Len(RulesAt(k)), K))
 EveryAcceptedFileReachable ==       \* the latest claimant of every key is visible after a completed call
     (k > 0 /\ exc = "ok") =>
-        \A i \in Done(k) : \A p \in Accepted(RulesAt(k)[i]) :
+        \A i \in Done(k) : \A p \in Accepted(k, RulesAt(k)[i]) :
             LET col == Column(KeyPath(p, CallTrim(k))) IN
             /\ col # <<>> /\ col[1].c = k /\ col[1].r >= i
             /\ (CallNest(k) => \E j \in 1..Len(col) : col[j] = Handle(k, i, p))
 DirsOnTheWayAreMaps == reqMaps = Required(k) /\ reqMaps \subseteq maps
 NothingElseAdded == /\ okMaps = Allowed(k) /\ maps \subseteq okMaps
-                    /\ \A K \in PresentKeys : K \notin maps /\ Gens(k, Len(RulesAt(k)), K) # <<>>
+                    /\ \A K \in PresentKeys : K \notin maps /\ K \notin Required(k) /\ Gens(k, Len(RulesAt(k)), K) # <<>>
 \* every stored handle sits under the key made of its file's path relative to the root, extension
 \* dropped iff the call that made it trimmed
 KeyIsRelPath == \A K \in PresentKeys : \A j \in 1..Len(Column(K)) :
@@ -238,12 +277,13 @@ NotADirectoryIsValueError == (k > 0 /\ FailAt(k) # 0) => exc = "ValueError"
 MissingSkipped == (k > 0 /\ FailAt(k) = 0) => exc = "ok"       \* and ColumnsAsStated: the other rules still populate
 ErrorsAsStated == exc = ExpectedExc(k)
 
-\* the same two clauses about conflicts as action properties over one call
+\* the same two clauses about conflicts as action properties over one call (handle against handle: a key that
+\* is a required sub-map after the call is the business of DirsOnTheWayAreMaps / ColumnsAsStated)
 NestKeepsOlderBeneath ==
-    [][(CallNest(k') /\ k' \notin sc.fresh) => \A K \in AllKeys' : IsSuffix(Column(K), Column(K)')]_vars
+    [][(CallNest(k') /\ k' \notin sc.fresh) => \A K \in AllKeys' : K \in reqMaps' \/ IsSuffix(Column(K), Column(K)')]_vars
 NoNestReplaces ==
     [][(~CallNest(k') /\ k' \notin sc.fresh) => \A K \in AllKeys' :
           LET o == Column(K)
               n == Column(K)' IN
-          n = o \/ (n # <<>> /\ n[1].c = k' /\ Tail(n) = (IF o = <<>> THEN <<>> ELSE Tail(o)))]_vars
+          K \in reqMaps' \/ n = o \/ (n # <<>> /\ n[1].c = k' /\ Tail(n) = (IF o = <<>> THEN <<>> ELSE Tail(o)))]_vars
 =============================================================================
